@@ -810,3 +810,690 @@ func ruleWaitsForAllPendings(r *Run, rule string) {
 		}
 	}
 }
+
+// ruleCoroutineConformance: the stepping primitive of every unit (common/coroutine) equals its
+// reference model operation by operation.
+func ruleCoroutineConformance(r *Run, rule string) {
+	for _, m := range []string{"Pre", "Cycle", "Checkpoint", "Append", "ExecuteWithCheckpoint", "ExecuteWithCheckpointAfter", "Reset", "ExecuteWithReset", "IsStart"} {
+		conform(r, rule, "common/coroutine", "Coroutine", m, "coroutine", nil)
+	}
+	conform(r, rule, "common/coroutine", "", "New", "coroutine", nil)
+}
+
+// ---- R07.23: a loop that waits for a component to become idle makes it progress
+
+type idleTest struct {
+	kind string // "bus", "co", "unit"
+	fld  *types.Var
+	typ  *types.Named
+	desc string
+}
+
+func isCoroutineNamed(t types.Type) bool {
+	n := namedOf(t)
+	return n != nil && n.Obj().Pkg() != nil && n.Obj().Pkg().Path() == modPath+"/common/coroutine" && n.Obj().Name() == "Coroutine"
+}
+
+// idleTestsIn collects the idleness tests an expression (or a statement list) makes: IsEmpty of
+// a buffered bus, IsStart of a coroutine field, isEmpty of a unit. Helper predicates of the
+// CPU type are expanded (depth-bounded).
+func idleTestsIn(w *World, v *variant, info *types.Info, n ast.Node, depth int, out map[string]idleTest) {
+	ast.Inspect(n, func(m ast.Node) bool {
+		if _, ok := m.(*ast.FuncLit); ok {
+			return false
+		}
+		call, ok := m.(*ast.CallExpr)
+		if !ok {
+			return true
+		}
+		sel, ok := call.Fun.(*ast.SelectorExpr)
+		if !ok {
+			return true
+		}
+		s := info.Selections[sel]
+		if s == nil || s.Kind() != types.MethodVal {
+			return true
+		}
+		mf := s.Obj().(*types.Func)
+		lastField := func() *types.Var {
+			if inner, ok := ast.Unparen(sel.X).(*ast.SelectorExpr); ok {
+				if is := info.Selections[inner]; is != nil && is.Kind() == types.FieldVal {
+					return is.Obj().(*types.Var)
+				}
+			}
+			return nil
+		}
+		switch {
+		case mf.Name() == "IsEmpty" && isCompType(info.TypeOf(sel.X), "BufferedBus"):
+			if f := lastField(); f != nil {
+				out["bus:"+f.Name()] = idleTest{kind: "bus", fld: f, desc: "buffered bus " + f.Name()}
+			}
+		case mf.Name() == "IsStart" && mf.Pkg() != nil && mf.Pkg().Path() == modPath+"/common/coroutine":
+			if len(s.Index()) > 1 {
+				// promoted: the unit itself is the coroutine
+				if t := namedOf(s.Recv()); t != nil {
+					out["unit:"+t.Obj().Name()] = idleTest{kind: "unit", typ: t, desc: "unit " + t.Obj().Name()}
+				}
+			} else if f := lastField(); f != nil {
+				out["co:"+f.Name()] = idleTest{kind: "co", fld: f, desc: "coroutine " + f.Name()}
+			}
+		case mf.Pkg() == v.pkg.Types && strings.EqualFold(mf.Name(), "isEmpty") || mf.Pkg() == v.pkg.Types && strings.HasPrefix(mf.Name(), "are") && strings.HasSuffix(mf.Name(), "Empty"):
+			t := namedOf(s.Recv())
+			if t == nil {
+				return true
+			}
+			if t == v.cpu {
+				if fd, pk := w.FuncDecl(mf); fd != nil && fd.Body != nil && depth < 3 {
+					idleTestsIn(w, v, pk.TypesInfo, fd.Body, depth+1, out)
+				}
+			} else {
+				out["unit:"+t.Obj().Name()] = idleTest{kind: "unit", typ: t, desc: "unit " + t.Obj().Name()}
+			}
+		}
+		return true
+	})
+}
+
+// progressIn reports whether node n (or a function it reaches) makes the component progress.
+func progressIn(w *World, info *types.Info, n ast.Node, t idleTest) bool {
+	calleeWorld = w
+	seen := map[*types.Func]bool{}
+	var rec func(info *types.Info, n ast.Node, depth int) bool
+	rec = func(info *types.Info, n ast.Node, depth int) bool {
+		found := false
+		ast.Inspect(n, func(m ast.Node) bool {
+			call, ok := m.(*ast.CallExpr)
+			if !ok || found {
+				return !found
+			}
+			sel, ok := call.Fun.(*ast.SelectorExpr)
+			if !ok {
+				return true
+			}
+			s := info.Selections[sel]
+			if s == nil || s.Kind() != types.MethodVal {
+				return true
+			}
+			name := s.Obj().Name()
+			var last *types.Var
+			if inner, ok := ast.Unparen(sel.X).(*ast.SelectorExpr); ok {
+				if is := info.Selections[inner]; is != nil && is.Kind() == types.FieldVal {
+					last = is.Obj().(*types.Var)
+				}
+			}
+			switch t.kind {
+			case "bus":
+				if name == "Connect" && last == t.fld {
+					found = true
+				}
+			case "co":
+				if name == "Cycle" && last == t.fld {
+					found = true
+				}
+			case "unit":
+				if (name == "Cycle" || name == "cycle") && namedOf(s.Recv()) == t.typ {
+					found = true
+				}
+			}
+			return true
+		})
+		if found {
+			return true
+		}
+		for _, f := range calleesIn(info, n) {
+			f = f.Origin()
+			if seen[f] || depth > 8 {
+				continue
+			}
+			seen[f] = true
+			if fd, pk := w.FuncDecl(f); fd != nil && fd.Body != nil {
+				if rec(pk.TypesInfo, fd.Body, depth+1) {
+					return true
+				}
+			}
+		}
+		return false
+	}
+	return rec(info, n, 0)
+}
+
+// ruleWaitLoopsProgress (R07.23): in the functions of the CPU type, a loop whose continuation
+// depends on a component being busy — the test sits in the loop condition or in an `if` of the
+// body that keeps the loop going (clears an exit flag, continues, breaks) — steps that
+// component in its body: Connect for a buffered bus, Cycle for a coroutine or a unit. A loop
+// that waits for something it never steps spins for ever.
+func ruleWaitLoopsProgress(r *Run, rule string) {
+	w := r.W
+	for _, v := range variants(w) {
+		if v.pkg == nil || !v.pipelined() || v.cpu == nil {
+			continue
+		}
+		info := v.info
+		for _, f := range v.pkg.Syntax {
+			for _, d := range f.Decls {
+				fd, ok := d.(*ast.FuncDecl)
+				if !ok || fd.Body == nil || fd.Recv == nil || len(fd.Recv.List) != 1 || namedOf(info.TypeOf(fd.Recv.List[0].Type)) != v.cpu {
+					continue
+				}
+				n := 0
+				ast.Inspect(fd.Body, func(m ast.Node) bool {
+					fs, ok := m.(*ast.ForStmt)
+					if !ok {
+						return true
+					}
+					n++
+					tests := map[string]idleTest{}
+					if fs.Cond != nil {
+						idleTestsIn(w, v, info, fs.Cond, 0, tests)
+					}
+					// ifs of the body (not of nested condition loops, which are checked on their own)
+					var walk func(list []ast.Stmt)
+					walk = func(list []ast.Stmt) {
+						for _, st := range list {
+							switch x := st.(type) {
+							case *ast.IfStmt:
+								keeps := false
+								ast.Inspect(x.Body, func(k ast.Node) bool {
+									switch y := k.(type) {
+									case *ast.BranchStmt:
+										keeps = true
+									case *ast.AssignStmt:
+										for _, rhs := range y.Rhs {
+											if tv, ok := info.Types[rhs]; ok && tv.Value != nil && typeName(tv.Type) == "bool" {
+												keeps = true
+											}
+										}
+									}
+									return true
+								})
+								if keeps {
+									idleTestsIn(w, v, info, x.Cond, 0, tests)
+								}
+								walk(x.Body.List)
+								if e, ok := x.Else.(*ast.BlockStmt); ok {
+									walk(e.List)
+								}
+							case *ast.RangeStmt:
+								walk(x.Body.List)
+							case *ast.BlockStmt:
+								walk(x.List)
+							}
+						}
+					}
+					walk(fs.Body.List)
+					for _, k := range sortedKeys(tests) {
+						t := tests[k]
+						r.check(progressIn(w, info, fs.Body, t), rule, fmt.Sprintf("%s.%s:loop#%d:steps(%s)", v.rel, declName(fd), n, k), fs.Pos(), "the loop keeps running while the %s is busy and steps it in its body", t.desc)
+					}
+					return true
+				})
+			}
+		}
+	}
+}
+
+// ruleFlushResetsCoroutines (R03.24 / R07.24): a unit written as a coroutine that can be
+// SUSPENDED (some Checkpoint / ExecuteWithCheckpoint* is performed on it) and that has a flush
+// method is returned to its start by that flush. A unit left suspended at a continuation of a
+// squashed instruction goes on executing it after the flush.
+func ruleFlushResetsCoroutines(r *Run, rule string) {
+	w := r.W
+	for _, v := range variants(w) {
+		if v.pkg == nil || !v.pipelined() {
+			continue
+		}
+		info := v.info
+		// coroutine "slots": (owner type, field) — field embedded or named
+		type slot struct {
+			owner *types.Named
+			fld   *types.Var
+		}
+		suspended := map[slot]bool{}
+		resetBy := map[slot]map[*types.Func]bool{} // functions that Reset the slot
+		slotOfCall := func(call *ast.CallExpr) (slot, string, bool) {
+			sel, ok := call.Fun.(*ast.SelectorExpr)
+			if !ok {
+				return slot{}, "", false
+			}
+			s := info.Selections[sel]
+			if s == nil || s.Kind() != types.MethodVal {
+				return slot{}, "", false
+			}
+			mf := s.Obj().(*types.Func)
+			if mf.Pkg() == nil || mf.Pkg().Path() != modPath+"/common/coroutine" {
+				return slot{}, "", false
+			}
+			if len(s.Index()) > 1 {
+				owner := namedOf(s.Recv())
+				st := structOf(s.Recv())
+				if owner == nil || st == nil {
+					return slot{}, "", false
+				}
+				return slot{owner, st.Field(s.Index()[0])}, mf.Name(), true
+			}
+			if inner, ok := ast.Unparen(sel.X).(*ast.SelectorExpr); ok {
+				if is := info.Selections[inner]; is != nil && is.Kind() == types.FieldVal {
+					return slot{namedOf(is.Recv()), is.Obj().(*types.Var)}, mf.Name(), true
+				}
+			}
+			return slot{}, "", false
+		}
+		for _, f := range v.pkg.Syntax {
+			for _, d := range f.Decls {
+				fd, ok := d.(*ast.FuncDecl)
+				if !ok || fd.Body == nil {
+					continue
+				}
+				fn, _ := info.Defs[fd.Name].(*types.Func)
+				ast.Inspect(fd.Body, func(m ast.Node) bool {
+					call, ok := m.(*ast.CallExpr)
+					if !ok {
+						return true
+					}
+					sl, name, ok := slotOfCall(call)
+					if !ok || sl.owner == nil {
+						return true
+					}
+					switch name {
+					case "Checkpoint", "ExecuteWithCheckpoint", "ExecuteWithCheckpointAfter":
+						suspended[sl] = true
+					case "Reset":
+						if resetBy[sl] == nil {
+							resetBy[sl] = map[*types.Func]bool{}
+						}
+						resetBy[sl][fn] = true
+					}
+					return true
+				})
+			}
+		}
+		var slots []slot
+		for sl := range suspended {
+			slots = append(slots, sl)
+		}
+		sort.Slice(slots, func(i, j int) bool {
+			return slots[i].owner.Obj().Name()+"."+slots[i].fld.Name() < slots[j].owner.Obj().Name()+"."+slots[j].fld.Name()
+		})
+		for _, sl := range slots {
+			fl := hasDeclMethod(sl.owner, "flush")
+			if fl == nil {
+				continue
+			}
+			fd, pk := w.FuncDecl(fl)
+			if fd == nil {
+				continue
+			}
+			ok := resetBy[sl][fl] || w.reaches(pk.TypesInfo, fd.Body, func(f *types.Func) bool { return resetBy[sl][f] })
+			r.check(ok, rule, fmt.Sprintf("%s.(%s).flush:resets(%s)", v.rel, sl.owner.Obj().Name(), sl.fld.Name()), fd.Pos(), "the flush of %s returns its suspendable coroutine %s to the start", sl.owner.Obj().Name(), sl.fld.Name())
+		}
+	}
+}
+
+// ruleSnoopCommandsComplete (R06.13 / R07.25): the life cycle of a command sent to another
+// core's controller. (a) Every job the snoop coroutine appends for a command completes the
+// command (calls its done()) before it reports completion (return true): the requester waits
+// on isDone(). (b) done() raises the flag isDone() reads and runs the completion callback.
+// (c) The callback installed when the command is created removes the command from the table
+// under the key it was inserted with: a completed command left in the table is handed out
+// again, already done, to the next requester, which then proceeds without the snoop.
+func ruleSnoopCommandsComplete(r *Run, rule string) {
+	w := r.W
+	for _, v := range variants(w) {
+		if v.pkg == nil || !v.pipelined() || !usesLineLocks(w, v) {
+			continue
+		}
+		info := v.info
+		isCmdInfo := func(t types.Type) *types.Named {
+			p, ok := t.(*types.Pointer)
+			if !ok {
+				return nil
+			}
+			n := namedOf(p.Elem())
+			if n != nil && n.Obj().Pkg() == v.pkg.Types && hasMethodNamed(n, "done") != nil && hasMethodNamed(n, "isDone") != nil {
+				return n
+			}
+			return nil
+		}
+		var cmdT *types.Named
+		for _, f := range v.pkg.Syntax {
+			for _, d := range f.Decls {
+				fd, ok := d.(*ast.FuncDecl)
+				if !ok || fd.Body == nil {
+					continue
+				}
+				// (a)
+				ast.Inspect(fd.Body, func(m ast.Node) bool {
+					rs, ok := m.(*ast.RangeStmt)
+					if !ok || rs.Value == nil {
+						return true
+					}
+					vid, ok := rs.Value.(*ast.Ident)
+					if !ok {
+						return true
+					}
+					vobj := info.Defs[vid]
+					if vobj == nil || isCmdInfo(vobj.Type()) == nil {
+						return true
+					}
+					cmdT = isCmdInfo(vobj.Type())
+					n := 0
+					ast.Inspect(rs.Body, func(k ast.Node) bool {
+						call, ok := k.(*ast.CallExpr)
+						if !ok || len(call.Args) != 1 {
+							return true
+						}
+						sel, ok := call.Fun.(*ast.SelectorExpr)
+						if !ok || sel.Sel.Name != "Append" || !isCoroutineNamed(info.TypeOf(sel.X)) {
+							return true
+						}
+						lit, ok := call.Args[0].(*ast.FuncLit)
+						if !ok {
+							return true
+						}
+						n++
+						// every `return true` is preceded in its statement list by v.done()
+						completes, total := 0, 0
+						var walk func(list []ast.Stmt)
+						walk = func(list []ast.Stmt) {
+							doneSeen := false
+							for _, st := range list {
+								switch x := st.(type) {
+								case *ast.ExprStmt:
+									if c, ok := x.X.(*ast.CallExpr); ok {
+										if s2, ok := c.Fun.(*ast.SelectorExpr); ok && s2.Sel.Name == "done" {
+											if id, ok := ast.Unparen(s2.X).(*ast.Ident); ok && info.Uses[id] == vobj {
+												doneSeen = true
+											}
+										}
+									}
+								case *ast.ReturnStmt:
+									if len(x.Results) == 1 {
+										if tv, ok := info.Types[x.Results[0]]; ok && tv.Value != nil && tv.Value.String() == "true" {
+											total++
+											if doneSeen {
+												completes++
+											}
+										}
+									}
+								case *ast.IfStmt:
+									walk(x.Body.List)
+									if e, ok := x.Else.(*ast.BlockStmt); ok {
+										walk(e.List)
+									}
+								case *ast.BlockStmt:
+									walk(x.List)
+								}
+							}
+						}
+						walk(lit.Body.List)
+						r.check(total > 0 && completes == total, rule, fmt.Sprintf("%s.%s:snoop-job#%d", v.rel, declName(fd), n), lit.Pos(), "every completion of a snoop job (return true: %d) first completes the command it serves (done(): %d)", total, completes)
+						return true
+					})
+					return true
+				})
+				// (c)
+				ast.Inspect(fd.Body, func(m ast.Node) bool {
+					cl, ok := m.(*ast.CompositeLit)
+					if !ok {
+						return true
+					}
+					n := namedOf(info.TypeOf(cl))
+					if n == nil || n.Obj().Pkg() != v.pkg.Types || hasMethodNamed(n, "done") == nil || hasMethodNamed(n, "isDone") == nil {
+						return true
+					}
+					var cb *ast.FuncLit
+					for _, e := range cl.Elts {
+						if kv, ok := e.(*ast.KeyValueExpr); ok {
+							if fl, ok := kv.Value.(*ast.FuncLit); ok {
+								cb = fl
+							}
+						}
+					}
+					if cb == nil {
+						return true
+					}
+					// insertions of this function into a map of commands: M[K] = …
+					type ins struct {
+						m *types.Var
+						k types.Object
+					}
+					var inserts []ins
+					ast.Inspect(fd.Body, func(k ast.Node) bool {
+						as, ok := k.(*ast.AssignStmt)
+						if !ok || len(as.Lhs) != 1 {
+							return true
+						}
+						ix, ok := as.Lhs[0].(*ast.IndexExpr)
+						if !ok {
+							return true
+						}
+						mt, ok := info.TypeOf(ix.X).Underlying().(*types.Map)
+						if !ok || isCmdInfo(mt.Elem()) == nil {
+							return true
+						}
+						if ms, ok := ast.Unparen(ix.X).(*ast.SelectorExpr); ok {
+							if kid, ok := ast.Unparen(ix.Index).(*ast.Ident); ok {
+								if s := info.Selections[ms]; s != nil {
+									inserts = append(inserts, ins{s.Obj().(*types.Var), info.Uses[kid]})
+								}
+							}
+						}
+						return true
+					})
+					removed := false
+					ast.Inspect(cb.Body, func(k ast.Node) bool {
+						call, ok := k.(*ast.CallExpr)
+						if !ok || len(call.Args) != 2 {
+							return true
+						}
+						if id, ok := call.Fun.(*ast.Ident); !ok || id.Name != "delete" {
+							return true
+						}
+						ms, ok1 := ast.Unparen(call.Args[0]).(*ast.SelectorExpr)
+						kid, ok2 := ast.Unparen(call.Args[1]).(*ast.Ident)
+						if !ok1 || !ok2 {
+							return true
+						}
+						if s := info.Selections[ms]; s != nil {
+							for _, in := range inserts {
+								if in.m == s.Obj() && in.k == info.Uses[kid] {
+									removed = true
+								}
+							}
+						}
+						return true
+					})
+					r.check(len(inserts) > 0 && removed, rule, fmt.Sprintf("%s.%s:completion-removes-command", v.rel, declName(fd)), cb.Pos(), "the completion callback of a new command removes it from the command table under the key it is inserted with")
+					return true
+				})
+			}
+		}
+		// (b)
+		if cmdT != nil {
+			dfn := hasMethodNamed(cmdT, "done")
+			ifn := hasMethodNamed(cmdT, "isDone")
+			dfd, _ := w.FuncDecl(dfn)
+			ifd, _ := w.FuncDecl(ifn)
+			ok := false
+			if dfd != nil && ifd != nil {
+				// the field isDone returns
+				var flag types.Object
+				ast.Inspect(ifd.Body, func(k ast.Node) bool {
+					if rt, ok := k.(*ast.ReturnStmt); ok && len(rt.Results) == 1 {
+						if sel, ok := ast.Unparen(rt.Results[0]).(*ast.SelectorExpr); ok {
+							if s := info.Selections[sel]; s != nil && s.Kind() == types.FieldVal {
+								flag = s.Obj()
+							}
+						}
+					}
+					return true
+				})
+				sets, calls := false, false
+				for _, st := range dfd.Body.List {
+					switch x := st.(type) {
+					case *ast.AssignStmt:
+						if len(x.Lhs) == 1 && len(x.Rhs) == 1 {
+							if sel, ok := x.Lhs[0].(*ast.SelectorExpr); ok {
+								if s := info.Selections[sel]; s != nil && flag != nil && s.Obj() == flag {
+									if tv, ok := info.Types[x.Rhs[0]]; ok && tv.Value != nil && tv.Value.String() == "true" {
+										sets = true
+									}
+								}
+							}
+						}
+					case *ast.ExprStmt:
+						if c, ok := x.X.(*ast.CallExpr); ok {
+							if sel, ok := c.Fun.(*ast.SelectorExpr); ok {
+								if s := info.Selections[sel]; s != nil && s.Kind() == types.FieldVal {
+									if _, isF := s.Obj().Type().Underlying().(*types.Signature); isF {
+										calls = true
+									}
+								}
+							}
+						}
+					}
+				}
+				ok = sets && calls
+			}
+			pos := token.NoPos
+			if dfd != nil {
+				pos = dfd.Pos()
+			}
+			r.check(ok, rule, fmt.Sprintf("%s.(%s).done", v.rel, cmdT.Obj().Name()), pos, "done() unconditionally raises the flag isDone() reads and runs the completion callback")
+		}
+	}
+}
+
+// ruleDispatchConserves (R09.6 / R01.13 / R04.15): the control unit neither loses nor duplicates
+// an instruction. Where the outcome of the dispatch decision is a bool (push, …) computed on
+// an instruction: an instruction TAKEN FROM THE INPUT BUS that is not dispatched is put in the
+// pending queue; an instruction READ FROM THE PENDING QUEUE that is dispatched is removed
+// from it (and only then).
+func ruleDispatchConserves(r *Run, rule string) {
+	w := r.W
+	for _, v := range variants(w) {
+		if v.pkg == nil || !multiExec(v) {
+			continue
+		}
+		info := v.info
+		for _, f := range v.pkg.Syntax {
+			for _, d := range f.Decls {
+				fd, ok := d.(*ast.FuncDecl)
+				if !ok || fd.Body == nil {
+					continue
+				}
+				n := 0
+				// loops (for / range) whose body defines an instruction variable, decides, and branches
+				ast.Inspect(fd.Body, func(m ast.Node) bool {
+					var body *ast.BlockStmt
+					switch x := m.(type) {
+					case *ast.ForStmt:
+						body = x.Body
+					case *ast.RangeStmt:
+						body = x.Body
+					}
+					if body == nil {
+						return true
+					}
+					var inst types.Object // the instruction variable
+					var src string        // "bus" or "queue"
+					var queueElem types.Object
+					var queueFld, _ = (*types.Var)(nil), 0
+					var pushVar types.Object
+					for _, st := range body.List {
+						as, ok := st.(*ast.AssignStmt)
+						if ok && as.Tok == token.DEFINE && len(as.Rhs) == 1 {
+							if call, ok := as.Rhs[0].(*ast.CallExpr); ok {
+								if sel, ok := call.Fun.(*ast.SelectorExpr); ok {
+									switch {
+									case sel.Sel.Name == "Get" && len(as.Lhs) == 2 && isCompType(info.TypeOf(sel.X), "BufferedBus"):
+										if id, ok := as.Lhs[0].(*ast.Ident); ok {
+											inst, src = info.Defs[id], "bus"
+										}
+									case sel.Sel.Name == "Value" && len(as.Lhs) == 1 && len(call.Args) == 1 && isCompType(info.TypeOf(sel.X), "Queue"):
+										if id, ok := as.Lhs[0].(*ast.Ident); ok {
+											inst, src = info.Defs[id], "queue"
+										}
+										if eid, ok := ast.Unparen(call.Args[0]).(*ast.Ident); ok {
+											queueElem = info.Uses[eid]
+										}
+										if qs, ok := ast.Unparen(sel.X).(*ast.SelectorExpr); ok {
+											if s := info.Selections[qs]; s != nil {
+												queueFld, _ = s.Obj().(*types.Var)
+											}
+										}
+									}
+								}
+								// push, stop := decide(…, &inst)
+								if inst != nil && len(as.Lhs) == 2 {
+									uses := false
+									for _, a := range call.Args {
+										ast.Inspect(a, func(k ast.Node) bool {
+											if id, ok := k.(*ast.Ident); ok && info.Uses[id] == inst {
+												uses = true
+											}
+											return true
+										})
+									}
+									if id, ok := as.Lhs[0].(*ast.Ident); ok && uses {
+										if o := info.Defs[id]; o != nil && typeName(o.Type()) == "bool" {
+											pushVar = o
+										}
+									}
+								}
+							}
+						}
+						is, ok := st.(*ast.IfStmt)
+						if !ok || pushVar == nil {
+							continue
+						}
+						cid, ok := ast.Unparen(is.Cond).(*ast.Ident)
+						if !ok || info.Uses[cid] != pushVar {
+							continue
+						}
+						n++
+						queueCall := func(list ast.Node, method string, arg types.Object, fld *types.Var) bool {
+							found := false
+							if list == nil {
+								return false
+							}
+							ast.Inspect(list, func(k ast.Node) bool {
+								call, ok := k.(*ast.CallExpr)
+								if !ok || len(call.Args) != 1 {
+									return true
+								}
+								sel, ok := call.Fun.(*ast.SelectorExpr)
+								if !ok || sel.Sel.Name != method || !isCompType(info.TypeOf(sel.X), "Queue") {
+									return true
+								}
+								if fld != nil {
+									qs, ok := ast.Unparen(sel.X).(*ast.SelectorExpr)
+									if !ok || info.Selections[qs] == nil || info.Selections[qs].Obj() != fld {
+										return true
+									}
+								}
+								if id, ok := ast.Unparen(call.Args[0]).(*ast.Ident); ok && info.Uses[id] == arg {
+									found = true
+								}
+								return true
+							})
+							return found
+						}
+						var elseBlock ast.Node
+						if is.Else != nil {
+							elseBlock = is.Else
+						}
+						key := fmt.Sprintf("%s.%s:dispatch#%d(%s)", v.rel, declName(fd), n, src)
+						switch src {
+						case "bus":
+							r.check(queueCall(elseBlock, "Push", inst, nil) && !queueCall(is.Body, "Push", inst, nil), rule, key, is.Pos(), "an instruction taken from the input bus that is not dispatched is put in the pending queue (and a dispatched one is not)")
+						case "queue":
+							r.check(queueCall(is.Body, "Remove", queueElem, queueFld) && !queueCall(elseBlock, "Remove", queueElem, queueFld), rule, key, is.Pos(), "an instruction read from the pending queue is removed from that queue when, and only when, it is dispatched")
+						}
+					}
+					return true
+				})
+			}
+		}
+	}
+}
